@@ -219,14 +219,17 @@ def blocking_cases(draw):
     cap = draw(st.integers(1, 3))
     ntags = draw(st.integers(1, 2))
     # initial non-blocking acquires by the main thread (fill up)
-    init = draw(st.lists(st.integers(0, ntags - 1), min_size=cap,
+    init = draw(st.lists(st.integers(0, ntags - 1),
+                         min_size=draw(st.sampled_from([cap, cap, 0, 1])
+                                       ) if cap > 1 else
+                         draw(st.sampled_from([0, 1])),
                          max_size=cap))
     nacq = draw(st.integers(1, 3))
     acq_tags = draw(st.lists(st.integers(0, ntags - 1), min_size=nacq,
                              max_size=nacq))
     nrel = draw(st.integers(1, 2))
-    order = draw(st.permutations(list(range(cap))))
-    split = draw(st.integers(0, cap))
+    order = draw(st.permutations(list(range(len(init)))))
+    split = draw(st.integers(0, len(init)))
     from ..gen import schedules
     return {'kind': 'block', 'cap': cap, 'init': init, 'acq': acq_tags,
             'order': list(order), 'nrel': nrel, 'split': split,
@@ -254,12 +257,18 @@ def run_blocking(case):
             tag = TAGS[t]
             held.append((tag, sem.acquire(tag, False)))
 
+        holders = [len(held)]
+
         def acquirer(tag, hold):
             def run():
                 tok = sem.acquire(tag, True)
+                holders[0] += 1
+                if holders[0] > case['cap'] and 'over' not in state:
+                    state['over'] = (holders[0], sched.step)
                 got.append((tag, tok))
                 if hold:
                     sched.yield_('hold')
+                holders[0] -= 1
                 sem.release(tag, tok)
             return run
 
@@ -270,6 +279,7 @@ def run_blocking(case):
         def releaser(lst):
             def run():
                 for (tag, tok) in lst:
+                    holders[0] -= 1
                     sem.release(tag, tok)
                     sched.yield_('between-releases')
             return run
@@ -281,6 +291,7 @@ def run_blocking(case):
     with patched(sched):
         sched.run(main)
     info['blocked'] = sched.max_blocked >= 1
+    info['nchoices'] = sched.nchoices
     if sched.deadlock:
         return (('blocking:acquirer-stranded',
                  f'deadlock {sched.deadlock} although every issued token is '
@@ -290,6 +301,10 @@ def run_blocking(case):
     if sched.errors:
         return ((f'blocking:exception:{type(sched.errors[0][1]).__name__}',
                  repr(sched.errors[0])), info)
+    if 'over' in state:
+        return (('blocking:more-permits-than-capacity',
+                 f'{state["over"][0]} permits were held at once with '
+                 f'capacity {case["cap"]} (step {state["over"][1]})'), info)
     if len(set(got)) != len(got):
         return (('blocking:duplicate-token',
                  f'two acquirers received the same token: {got}'), info)
@@ -305,3 +320,43 @@ def run_blocking(case):
                      f'tag {tag}: acquirers got {toks}, expected '
                      f'{list(range(base, base + len(toks)))}'), info)
     return None, info
+
+
+def systematic_blocking(shard, nshards, visit):
+    """Bounded-preemption exploration (every single and every pair of
+    preemption points) of small fixed blocking scenarios."""
+    idx = 0
+    for cap in (1, 2):
+        for nacq in (2, 3):
+            for ntag in (1, 2):
+              for ninit in range(cap + 1):
+                for hold in (False, True):
+                    idx += 1
+                    if idx % nshards != shard:
+                        continue
+                    base = {'kind': 'block', 'cap': cap,
+                            'init': [i % ntag for i in range(ninit)],
+                            'acq': [i % ntag for i in range(nacq)],
+                            'order': list(range(ninit))[::-1], 'nrel': 1,
+                            'split': 0, 'hold': [hold] * nacq}
+                    # dry run to learn the number of real choices
+                    from ..detsched import Scheduler
+                    c0 = dict(base, sched={'mode': 'preempt', 'at': []})
+                    viol, info = run_blocking(c0)
+                    visit(c0, viol, info)
+                    n = info.get('nchoices', 40)
+                    singles = [(i, k) for i in range(n) for k in (1, 2)]
+                    for a in singles:
+                        c = dict(base, sched={'mode': 'preempt',
+                                              'at': [list(a)]})
+                        viol, info = run_blocking(c)
+                        visit(c, viol, info)
+                    for x in range(len(singles)):
+                        for y in range(x + 1, len(singles)):
+                            if singles[x][0] == singles[y][0]:
+                                continue
+                            c = dict(base, sched={
+                                'mode': 'preempt',
+                                'at': [list(singles[x]), list(singles[y])]})
+                            viol, info = run_blocking(c)
+                            visit(c, viol, info)
